@@ -65,6 +65,10 @@ class Ctx:
         return self.tier == "thorough"
 
     def check(self, rule, file, unit, construct, ok, msg, line=None, extra=None):
+        if isinstance(line, int) and file in getattr(self.tree, "inlined", {}):
+            from .inline import SCALE   # a file in which helpers were followed has its line numbers scaled (inline._renumber)
+            if line >= SCALE:
+                line //= SCALE
         o = Obligation(rule, file, unit, construct, ok, msg, line, extra)
         self.obligations.append(o)
         self.sites += 1
